@@ -1,15 +1,23 @@
 #!/bin/bash
-# Runs the quick tier of the relevant checks against every seeded change (both rounds) in a scratch worktree.
-# Output: /tmp/seeded/final-matrix.txt (read by tools/pack_seeded.py).
+# Runs the quick tier of the relevant checks against every seeded change (all rounds) in a scratch worktree,
+# with a frozen copy of the harness sources. Output: /tmp/seeded/final-matrix.txt (read by tools/pack_seeded.py).
+# usage: tools/run_matrix.sh [first-property]   (e.g. C07 to resume there)
 export OALV_BUDGET_S=${OALV_BUDGET_S:-150}
 export WT=${WT:-/tmp/wt-eval}
-declare -A MAP=( [C01]="C01 C09" [C02]="C02 C08 C09" [C03]="C03" [C04]="C04 C12 C01 C02" [C05]="C05 C08 C02" [C06]="C06" [C07]="C07" [C08]="C08 C02" [C09]="C09 C01" [C10]="C10" [C11]="C11 C17" [C12]="C12" [C13]="C13 C15" [C14]="C14" [C15]="C15" [C16]="C16 C17 C18" [C17]="C17 C15" [C18]="C18 C08 C17" )
+export SNAP=${SNAP:-/tmp/harness-snap}
+OUT=${OUT:-/tmp/seeded/final-matrix.txt}
+rsync -a --delete /verif/harness/ "$SNAP/" --exclude target
+declare -A MAP=( [C01]="C01 C09" [C02]="C02 C08 C09" [C03]="C03 C13" [C04]="C04 C12 C01" [C05]="C05 C08 C02" [C06]="C06" [C07]="C07" [C08]="C08 C02" [C09]="C09 C01" [C10]="C10 C15" [C11]="C11 C15" [C12]="C12" [C13]="C13 C15" [C14]="C14 C13" [C15]="C15" [C16]="C16 C15 C17" [C17]="C17 C15" [C18]="C18 C15 C17" )
+start=${1:-C01}
+go=0
 for p in C01 C02 C03 C05 C06 C07 C08 C09 C10 C11 C13 C14 C15 C16 C17 C18 C12 C04; do
-  for r in 1 2; do for v in A B; do
-    if [ $r = 1 ]; then f=/tmp/seeded/out-$p/$v/patch.diff; key="$p/$v"; else f=/tmp/seeded/out2-$p/$v/patch.diff; key="$p/r2$v"; fi
+  [ "$p" = "$start" ] && go=1
+  [ $go = 1 ] || continue
+  for r in 1 2 3 4; do for v in A B; do
+    case $r in 1) f=/tmp/seeded/out-$p/$v/patch.diff; key="$p/$v";; *) f=/tmp/seeded/out$r-$p/$v/patch.diff; key="$p/r$r$v";; esac
     [ -f "$f" ] || continue
-    echo "### $key"
-    /verif/tools/eval_seeded.sh "$f" quick ${MAP[$p]} 2>&1 | cut -c1-400
+    echo "### $key" >> "$OUT"
+    /verif/tools/eval_seeded.sh "$f" quick ${MAP[$p]} 2>&1 | cut -c1-400 >> "$OUT"
   done; done
 done
-echo "### DONE"
+echo "### DONE" >> "$OUT"
